@@ -61,6 +61,37 @@ def regex_value(ctx, node, mod, rule, at):
     return v.pattern, v.flags
 
 
+def call_parts(key):
+    """'f(a,b,k=c)' (a canonical call term key, keywords already folded into their positions where the signature is
+    known) -> ('f', ['a', 'b'], {'k': 'c'})"""
+    from ..core.terms import _split_top
+    if not key.endswith(")") or "(" not in key:
+        return key, [], {}
+    depth = 0
+    start = None
+    for i, ch in enumerate(key):
+        if ch == "(":
+            if depth == 0 and start is None:
+                start = i
+            depth += 1
+        elif ch == ")":
+            depth -= 1
+            if depth == 0 and i != len(key) - 1:
+                start = None  # not the final call: e.g. (x).f(...)
+    if start is None:
+        return key, [], {}
+    inner = key[start + 1:-1]
+    pos, kw = [], {}
+    for part in (_split_top(inner, ",") if inner else []):
+        import re as _re
+        m = _re.match(r"^([A-Za-z_][A-Za-z_0-9]*)=(?!=)(.*)$", part)
+        if m:
+            kw[m.group(1)] = m.group(2)
+        else:
+            pos.append(part)
+    return key[:start], pos, kw
+
+
 def is_super_call(call, name=None):
     f = call.func
     return isinstance(f, ast.Attribute) and isinstance(f.value, ast.Call) and isinstance(f.value.func, ast.Name) \
